@@ -7,6 +7,7 @@ LEVEL = "translation_validation"
                                                   lp_polynomial_evaluate, the assignment and the polynomial afterwards
   er <perm> <poly> <tok..>                        coefficient_evaluate_rationals (internal)
   rlb <c0,..,cn>                                  coefficient_root_lower_bound (internal)
+  va <perm> <poly> <tok..>                        coefficient_value_approx (internal) against the model on C15 intervals
   sc <cond> <sign>                                lp_sign_condition_consistent
 Every random choice comes from the one `rng` passed in."""
 import os, sys, itertools
@@ -394,6 +395,15 @@ def er_case(rng):
     return "er %s %s %s" % (perm_of(rng, n), poly_text(p), " ".join(toks))
 
 
+def va_case(rng):
+    """coefficient_value_approx on the polynomials / assignments of the ev classes"""
+    c = None
+    while not c:
+        c = rng.choice([mixed, lc_killer, sqrt_family, secretly_rational, cube_roots])(rng)
+    t = c.split()
+    return "va %s %s %s" % (t[2], t[3], " ".join(t[4:]))
+
+
 def rlb_case(rng):
     k = rng.random()
     deg = rng.randint(1, 6)
@@ -421,7 +431,7 @@ def sc_cases():
 
 CLASSES = [("sqrt", sqrt_family, 14), ("tiny", tiny_linear, 6), ("scaled", scaled_eliminant, 9), ("scaledd", scaled_directed, 4), ("mixed", mixed, 30),
            ("lckill", lc_killer, 10), ("cbrt", cube_roots, 4), ("secret", secretly_rational, 8), ("er", er_case, 12),
-           ("rlb", rlb_case, 4)]
+           ("rlb", rlb_case, 4), ("va", va_case, 10)]
 
 
 def generate(rng, tier):
